@@ -340,7 +340,10 @@ fn write_minimal_mcnk_chunk<W: Write + Seek>(
 
     // Build MCNK header with calculated offsets
     let header = McnkHeader {
-        flags: McnkFlags { value: 0 },
+        // has_mccv: the parser only reads MCCV when the header flag announces it
+        flags: McnkFlags {
+            value: if mccv_offset != 0 { 0x40 } else { 0 },
+        },
         index_x: x,
         index_y: y,
         n_layers: 1, // One texture layer
@@ -502,6 +505,8 @@ fn write_mcnk_chunk<W: Write + Seek>(writer: &mut W, mcnk: &McnkChunk) -> Result
     // Write MCCV (vertex colors) if present
     if let Some(mccv) = &mcnk.vertex_colors {
         header.ofs_mccv = (writer.stream_position()? - mcnk_start) as u32;
+        // The parser only reads MCCV when the header flag announces it
+        header.flags.value |= 0x40;
         // Write manually due to Vec serialization issues
         writer.write_all(&ChunkId::MCCV.0)?;
         let data_size = (mccv.colors.len() * 4) as u32; // 4 bytes per BGRA color
